@@ -131,7 +131,7 @@ def geo_cases(draw, invf_lo=150.0, invf_hi=400.0, kinds=True, max_dlon=30.0, prj
         if not (-180.0 <= lon < 180.0):
             lon = ((cm + 180.0) % 360.0) - 180.0
     kind_ = draw(S.angle_kind) if kinds else "float"
-    return {"lat": lat, "lon": lon, "zone": zone, "ell": ell, "prj": prj, "kind": kind_}
+    return {"lat": lat, "lon": lon, "zone": zone, "ell": ell, "prj": prj, "kind": kind_, "defaults": draw(st.booleans())}
 
 
 def resolve(case):
@@ -155,6 +155,13 @@ def call_geo2grid(cv, case, lat_arg, lon_arg):
     ell, prj, _, _ = resolve(case)
     with warnings.catch_warnings():
         warnings.simplefilter("ignore", UserWarning)     # documented: ISG with a non-ANS ellipsoid warns
+        if case.get("defaults"):
+            # leave out every argument whose requested value is the documented default (zone 0, GRS80, UTM)
+            if case["prj"] == "utm" and case["ell"] == "grs80":
+                return cv.geo2grid(lat_arg, lon_arg) if case["zone"] == 0 else cv.geo2grid(lat_arg, lon_arg, zone=case["zone"])
+            if case["prj"] == "utm":
+                return cv.geo2grid(lat_arg, lon_arg, case["zone"], ellipsoid=ell)
+            return cv.geo2grid(lat_arg, lon_arg, zone=case["zone"], ellipsoid=ell, prj=prj)
         return cv.geo2grid(lat_arg, lon_arg, case["zone"], ell, prj)
 
 
@@ -163,6 +170,12 @@ def call_grid2geo(cv, case, zone, east, north, hemi):
     ell, prj, _, _ = resolve(case)
     with warnings.catch_warnings():
         warnings.simplefilter("ignore", UserWarning)
+        if case.get("defaults"):
+            if case["prj"] == "utm" and case["ell"] == "grs80" and hemi.lower() == "south":
+                return cv.grid2geo(zone, east, north)                   # hemisphere 'south', GRS80 and UTM are the defaults
+            if case["prj"] == "utm" and case["ell"] == "grs80":
+                return cv.grid2geo(zone, east, north, hemisphere=hemi.upper() if len(hemi) % 2 else hemi.capitalize())
+            return cv.grid2geo(zone, east, north, hemisphere=hemi, ellipsoid=ell, prj=prj)
         return cv.grid2geo(zone, east, north, hemi, ell, prj)
 
 
@@ -235,7 +248,8 @@ def grid_cases(draw, prj_strategy=None, ell_strategy=None, wide=True):
     else:
         x = (draw(_unit) * 2 - 1) * 3.3e6
     east = fe + x
-    return {"zone": zone, "east": east, "north": north, "hemi": "south" if south else "north", "ell": ell, "prj": prj}
+    return {"zone": zone, "east": east, "north": north, "hemi": "south" if south else "north", "ell": ell, "prj": prj,
+            "defaults": draw(st.booleans())}
 
 
 def grid_domain_or_discard(case, lat, lon):
